@@ -56,5 +56,5 @@ def op(h, kind, key, *rest):
     return "op %d %s %s %d %d %s" % (h, kind, key[0], key[1], key[2], " ".join(str(x) for x in rest))
 
 
-FIRE = "trig clear=1 counter=0 draws=1,%d" % MAXU          # next trigger event fires
-NOFIRE = "trig clear=1 counter=%d" % MAXU                  # next events do not fire (unless the weight is u64::MAX)
+FIRE = "trig clear=1 counter=0 sharddraws=0,1,2,3,0,1,2,3 draws=1,%s" % ",".join([str(MAXU)] * 8)          # next trigger event fires
+NOFIRE = "trig clear=1 counter=%d draws=%s sharddraws=0,1,2,3,0,1,2,3" % (MAXU, ",".join([str(MAXU)] * 8))   # next events do not fire (unless the window forces it); scripted either way
